@@ -383,6 +383,18 @@ impl Abi {
             (Ty::Own | Ty::Borrow | Ty::Future | Ty::Stream | Ty::ErrorContext, Val::Handle(h)) => {
                 vec![(Flat::I32, *h as u64)]
             }
+            (Ty::String, _) | (Ty::List(_), _) if mem.real => {
+                // the (pointer, length) pair goes through a scratch buffer of the harness, not
+                // through guest memory
+                let mut buf = [0u64; 2];
+                let tmp = buf.as_mut_ptr() as u64;
+                let before = mem.trusted.replace((tmp, 16));
+                self.store(mem, v, t, tmp);
+                let p = mem.r_ptr(tmp, self.p);
+                let l = mem.r_ptr(tmp + self.p, self.p);
+                mem.trusted.set(before);
+                vec![(self.ptr_flat(), p), (self.ptr_flat(), l)]
+            }
             (Ty::String, _) | (Ty::List(_), _) => {
                 let tmp = mem.alloc(2 * self.p, self.p);
                 self.store(mem, v, t, tmp);
@@ -458,6 +470,14 @@ pub struct Mem {
     pub bytes: Vec<u8>,
     pub top: u64,
     pub allocs: Vec<(u64, u64, u64)>,
+    /// real mode: addresses are machine addresses of the running process (native execution of
+    /// generated bindings); `alloc_fn(size, align)` provides buffers (the guest's cabi_realloc)
+    pub real: bool,
+    pub alloc_fn: Option<fn(u64, u64) -> u64>,
+    /// real mode: is [ptr, ptr+len) readable guest memory? (None: not checked)
+    pub valid_fn: Option<fn(u64, u64) -> bool>,
+    /// real mode: a range of the harness's own memory that reads may touch (scratch buffers)
+    pub trusted: std::cell::Cell<(u64, u64)>,
 }
 impl Mem {
     pub fn new() -> Mem {
@@ -465,11 +485,23 @@ impl Mem {
             bytes: vec![0xAA; 1 << 20],
             top: 64,
             allocs: vec![],
+            real: false,
+            alloc_fn: None,
+            valid_fn: None,
+            trusted: std::cell::Cell::new((0, 0)),
         }
+    }
+    pub fn real(alloc_fn: fn(u64, u64) -> u64) -> Mem {
+        Mem { bytes: vec![], top: 0, allocs: vec![], real: true, alloc_fn: Some(alloc_fn), valid_fn: None, trusted: std::cell::Cell::new((0, 0)) }
     }
     pub fn alloc(&mut self, size: u64, align: u64) -> u64 {
         if size == 0 {
             return align;
+        }
+        if self.real {
+            let p = (self.alloc_fn.expect("real memory needs an allocator"))(size, align.max(1));
+            self.allocs.push((p, size, align));
+            return p;
         }
         self.top = align_to(self.top + 16, align.max(1));
         let p = self.top;
@@ -479,9 +511,24 @@ impl Mem {
         p
     }
     pub fn w(&mut self, at: u64, b: &[u8]) {
+        if self.real {
+            unsafe { std::ptr::copy_nonoverlapping(b.as_ptr(), at as usize as *mut u8, b.len()) };
+            return;
+        }
         self.bytes[at as usize..at as usize + b.len()].copy_from_slice(b)
     }
     pub fn r(&self, at: u64, n: u64) -> &[u8] {
+        if self.real {
+            if n == 0 {
+                return &[];
+            }
+            let (ta, tl) = self.trusted.get();
+            let in_trusted = at >= ta && at + n <= ta + tl;
+            if let (Some(v), false) = (self.valid_fn, in_trusted) {
+                assert!(v(at, n), "guest memory [{at:#x}, +{n}) is not a live allocation of the guest");
+            }
+            return unsafe { std::slice::from_raw_parts(at as usize as *const u8, n as usize) };
+        }
         &self.bytes[at as usize..(at + n) as usize]
     }
     pub fn r_ptr(&self, at: u64, p: u64) -> u64 {
